@@ -328,7 +328,7 @@ def oracle_rt(case, out):
     cmd, mod, tag, trail = t[0], t[1], int(t[2]), t[3]
     vals = t[4:]
     o = strip_tail(out).split()
-    if out.startswith("PANIC") or out.startswith("CRASH") or out.startswith("BADCASE"):
+    if out.startswith("PANIC") or out.startswith("CRASH") or out.startswith("HANG") or out.startswith("BADCASE"):
         return "encode/decode of a valid value did not complete: " + out[:200]
     if "ORACLE-FAIL" in out:
         return out[out.index("ORACLE-FAIL"):]
@@ -377,7 +377,7 @@ def oracle_spec_out(case, out):
 
 def oracle_total(case, out, inlen):
     """C10 on the implementation alone"""
-    if out.startswith("PANIC") or out.startswith("CRASH"):
+    if out.startswith("PANIC") or out.startswith("CRASH") or out.startswith("HANG"):
         return "decoder did not return: " + out[:200]
     if "ORACLE-FAIL" in out:
         return out[out.index("ORACLE-FAIL"):]
